@@ -104,6 +104,7 @@ class GLRParser(Parser):
         self._tokens_ahead = []
         self._last_shifted_heads = []
         self._for_shifter = []
+        self._frontier = 0
 
         # We start with a single parser head in state 0.
         start_head = GSSNode(
@@ -428,6 +429,10 @@ class GLRParser(Parser):
                 self._trace_frontier()
 
         self._active_heads = {}
+        # Heads shifted now form a new frontier. Its number is not derived
+        # from the shifting head as, due to lexical ambiguity, that head may
+        # be waiting from one of the previous frontiers.
+        self._frontier += 1
 
         # Due to lexical ambiguity heads might be at different positions.
         # We must order heads by position before shift to process them in
@@ -487,7 +492,7 @@ class GLRParser(Parser):
                     head.input_str,
                     to_state,
                     end_position,
-                    head.frontier + 1,
+                    self._frontier,
                     head.extra,
                     ambiguity=1,
                     layout_content=head.layout_content_ahead,
